@@ -1,7 +1,7 @@
 ---------------------------- MODULE DDPTypesTrace ----------------------------
 (* Pattern T (monitor): answers of the real code about pairs of types.
    {"e":"eq","a":term,"b":term,"equal":bool}                           ddptypes.Equal on constructed types
-   {"e":"pos","t":term,"v":term,"init":b,"assign":b,"cast":b,"arg":b,"ret":b}
+   {"e":"pos","t":term,"v":term,"init":b,"assign":b,"cast":b,"arg":b,"ret":b,"refassign":b,"refarg":b}   (refassign / refarg: a variable of type v used `als t` in a reference context)
         acceptance by parser.Parse of:  Der T x ist <V>. / Speichere <V> in x. / <V> als T / f(<V>) with parameter T /
         Gib <V> zurück in a function returning T                                                                       *)
 EXTENDS DDPTypes, TLC, Json
@@ -21,6 +21,7 @@ Pos == /\ Trace[l].e = "pos"
                       /\ ev.arg = ArgOK(T, V)
                       /\ ev.ret = RetOK(T, V)
                       /\ (CastSpecified(T, V) => ev.cast = CastOK(T, V))
+                      /\ (("refassign" \in DOMAIN ev /\ ~IsVar(T) /\ ~IsVar(V)) => ev.refassign = RefCastOK(T, V) /\ ev.refarg = RefCastOK(T, V))
           IN  bad' = IF good THEN bad ELSE bad \cup {l}
 Next == l <= Len(Trace) /\ l' = l + 1 /\ (Eq \/ Pos)
 Spec == Init /\ [][Next]_<<l, bad>>
